@@ -43,7 +43,7 @@ def under(p, root):
     return p[: len(root)] == root
 
 
-def oracle(pre, post, op, ok):
+def oracle(pre, post, op, ok, src_root_kept=False):
     """the property on one call of one filesystem: list of (law, detail) failures"""
     bad = []
     if post is None:
@@ -92,7 +92,9 @@ def oracle(pre, post, op, ok):
             for p in d0:
                 if under(p, s) and (d + p[len(s):]) not in d1 and (d + p[len(s):]) != ():
                     bad.append((name + "_post", "source directory %r missing at destination" % "/".join(p)))
-            if name == "movedir" and (s in d1 or any(under(p, s) for p in f1)):
+            # (the root directory of a view cannot itself disappear: only its content moves)
+            if name == "movedir" and ((s in d1 and not src_root_kept and s != ()) or any(under(p, s) for p in f1)
+                                      or any(under(p, s) and p != s for p in d1)):
                 bad.append(("movedir_post", "source still present"))
             if name == "copydir":
                 for p, b in f0.items():
@@ -204,6 +206,130 @@ def cross_case(rng, ka, kb, same):
             b.close()
 
 
+def aliased_case(rng, base_kind, force_runaway=False):
+    """two views of the same storage: (parent, parent'), (parent, SubFS), (SubFS, parent), (SubFS, SubFS)"""
+    import fs.copy as C
+    import fs.move as M
+    from fs.osfs import OSFS
+
+    parent = H.make_backend(base_kind)
+    try:
+        p = parent.fs
+        for path in ("v", "v/w", "u"):
+            p.makedirs(path, recreate=True)
+        for _ in range(rng.randint(2, 7)):
+            op = H.gen_op(rng, H.snapshot(p) or [], ["a", "b", "v", "w"], spelling=False)
+            if op[0] in ("makedir", "makedirs", "writebytes", "appendbytes", "create"):
+                H.apply_op(p, op)
+
+        def view(which):
+            if which == "same":
+                return p, ()
+            if which == "twin" and base_kind == "os":
+                return OSFS(p.getsyspath("/")), ()
+            if which == "sub":
+                return p.opendir("v"), ("v",)
+            if which == "subsub":
+                return p.opendir("v").opendir("w"), ("v", "w")
+            return p, ()
+
+        wa, wb = rng.choice(["same", "twin", "sub", "subsub"]), rng.choice(["same", "twin", "sub", "subsub"])
+        (fa, ra), (fb, rb) = view(wa), view(wb)
+        pre = H.snapshot(p)
+        fn = rng.choice(["move_file", "move_dir", "copy_file", "copy_dir"])
+        sp = H.gen_path(rng, H.snapshot(fa) or [], ["a", "b", "w"], spelling=(rng.random() < 0.3))
+        dp = H.gen_path(rng, H.snapshot(fb) or [], ["a", "b", "w"], spelling=(rng.random() < 0.3))
+
+        s_, d_ = comps(sp), comps(dp)
+        runaway = (fn in ("move_dir", "copy_dir") and fa is not fb and s_ is not None and d_ is not None
+                   and under(rb + d_, ra + s_))
+        if runaway and not force_runaway:
+            # open known finding (see known_findings.json): through two *different* views of one
+            # storage the "destination inside source" guard does not fire and the copy recurses
+            # until something external stops it.  Replayed once by `aliased_runaway_regression`.
+            return None
+
+        def go():
+            getattr(M if fn.startswith("move") else C, fn)(fa, sp, fb, dp)
+        try:
+            H.with_watchdog(go, 3 if runaway else 10)
+            res = ("ok",)
+        except BaseException as e:  # noqa
+            res = ("err", H.exc_name(e), repr(e))
+        post = H.snapshot(p)
+        return dict(fn=fn, base=base_kind, va=wa, vb=wb, ra=ra, rb=rb, sp=sp, dp=dp, pre=pre, post=post, res=res)
+    finally:
+        parent.close()
+
+
+def judge_aliased(rep, c):
+    rep.evaluations += 1
+    ok = c["res"][0] == "ok"
+    rep.count("aliased/%s:%s" % (c["fn"], "ok" if ok else c["res"][1]))
+    rep.nontrivial("aliased", c["fn"], c["base"], c["va"], c["vb"], c["sp"], c["dp"], H.enc_tree(c["pre"] or []))
+    kind = {"move_file": "move", "copy_file": "copy", "move_dir": "movedir", "copy_dir": "copydir"}[c["fn"]]
+    s, d = comps(c["sp"]), comps(c["dp"])
+    bad = []
+    if c["post"] is None or c["pre"] is None:
+        bad.append(("terminates_and_stays_consistent", "snapshot failed"))
+    elif s is not None and d is not None:
+        ps = "/".join(c["ra"] + s)
+        pd = "/".join(c["rb"] + d)
+        if kind == "copy" and c["ra"] + s == c["rb"] + d and ok:
+            # copying a file onto itself through two views: content must survive
+            f0, _ = tree_maps(c["pre"])
+            f1, _ = tree_maps(c["post"])
+            if f1.get(c["ra"] + s) != f0.get(c["ra"] + s):
+                bad.append(("copy_onto_itself_keeps_content", ps))
+        else:
+            bad += oracle(c["pre"], c["post"], (kind, ps, pd, True), ok, src_root_kept=(s == ()))
+            if kind == "move" and c["ra"] + s == c["rb"] + d:
+                f0, _ = tree_maps(c["pre"])
+                f1, _ = tree_maps(c["post"])
+                t = c["ra"] + s
+                if t in f0 and f1.get(t) != f0[t]:
+                    bad.append(("move_onto_itself_keeps_content", ps))
+    if c["res"][0] == "err" and c["res"][1] == "Leak:Timeout":
+        bad.append(("terminates", "watchdog"))
+    if bad:
+        case = {k: (v if not isinstance(v, list) else [[e[0], e[1]] + ([e[2].decode("latin-1")] if e[0] == "F" else []) for e in v]) for k, v in c.items()}
+        rep.violation(case, "fs.%s(%s view %r:%r -> %s view %r:%r of one %s) — %s: %s" % (
+            c["fn"], c["va"], "/".join(c["ra"]), c["sp"], c["vb"], "/".join(c["rb"]), c["dp"], c["base"], bad[0][0], bad[0][1]),
+            found_input=True, signature="C05/aliased/%s/%s" % (c["fn"], bad[0][0]))
+
+
+def aliased_runaway_regression(rep):
+    """the minimal history of the open finding 'copy_dir into itself through two views'"""
+    import fs.copy as C
+    from fs.memoryfs import MemoryFS
+
+    m = MemoryFS()
+    m.makedirs("v/w")
+    m.writebytes("v/f", b"x")
+    view = m.opendir("v")
+    try:
+        H.with_watchdog(lambda: C.copy_dir(m, "v", view, "w/copy"), 2)
+        res = "returned"
+    except H.Timeout:
+        res = "no-termination"
+    except BaseException as e:  # noqa
+        res = H.exc_name(e)
+    rep.evaluations += 1
+    depth = 0
+    try:
+        p = "v/w/copy"
+        while m.isdir(p) and depth < 50:
+            depth += 1
+            p += "/w/copy"
+    except Exception:
+        pass
+    m.close()
+    if res in ("no-termination", "Leak:RecursionError") or depth >= 5:
+        rep.violation({"call": "copy_dir(m, 'v', m.opendir('v'), 'w/copy')", "result": res, "nesting_depth_reached": depth},
+                      "copy_dir from a filesystem into a SubFS view of the same storage whose target lies inside the source never terminates on its own (%s, nesting depth %d)" % (res, depth),
+                      found_input=True, signature="C05/known/aliased-views-copy-into-itself-runaway")
+
+
 def judge_cross(rep, c):
     rep.evaluations += 1
     fn, ok = c["fn"], c["res"][0] == "ok"
@@ -289,7 +415,55 @@ def symlink_canary(rep):
         finally:
             import shutil
 
-            shutil.rmtree(base, ignore_errors=True)
+            H.rm_rf(base)
+
+
+def symlink_histories(rep, rng, n):
+    """random histories on an OSFS whose tree holds symlinks (to a directory and to a file)
+    pointing outside the root: whatever is called, the targets are never emptied or changed"""
+    import shutil
+    from fs.osfs import OSFS
+
+    names = ["d", "link", "flink", "keep", "sub"]
+    for h in range(n):
+        base = H._tmpdir()
+        try:
+            root = os.path.join(base, "root")
+            out = os.path.join(base, "outside")
+            os.makedirs(os.path.join(root, "d", "sub"))
+            os.makedirs(os.path.join(out, "deep"))
+            for rel in ("canary.txt", "deep/also.txt"):
+                with open(os.path.join(out, rel), "wb") as fh:
+                    fh.write(b"canary")
+            os.symlink(out, os.path.join(root, "d", "link"))
+            os.symlink(os.path.join(out, "canary.txt"), os.path.join(root, "d", "flink"))
+            os.symlink(out, os.path.join(root, "link"))
+            o = OSFS(root)
+            view = o if rng.random() < 0.6 else o.opendir("d")
+            ops = []
+            try:
+                for i in range(8):
+                    name = rng.choice(["removetree", "removetree", "removedir", "remove", "movedir", "copydir", "move", "copy"])
+                    # paths naming a link are in scope; paths *through* a link name the target explicitly and are not
+                    P = lambda: rng.choice(["", "d", "d/link", "link", "d/flink", "flink", "d/sub", "sub", "new", "d/new"])  # noqa
+                    op = (name, P()) if name in ("removetree", "removedir", "remove") else (name, P(), P(), rng.random() < 0.7)
+                    res = H.apply_op(view, op)
+                    ops.append(H.op_json(op) + [res[1]])
+                    rep.evaluations += 1
+                    rep.nontrivial("symlink-history", h, i, op)
+                    intact = all(os.path.exists(os.path.join(out, r)) and open(os.path.join(out, r), "rb").read() == b"canary"
+                                 for r in ("canary.txt", "deep/also.txt"))
+                    if not intact:
+                        rep.violation({"view": "root" if view is o else "SubFS(d)", "ops": ops},
+                                      "OSFS%s: %s%r emptied or changed the target of a symbolic link that points outside the root (history %r)"
+                                      % ("" if view is o else ".opendir('d')", op[0], op[1:], ops[-3:]),
+                                      found_input=True, signature="C05/os/%s/symlink_target_emptied" % op[0])
+                        break
+            finally:
+                o.close()
+        finally:
+            H.rm_rf(base)
+    rep.programs += n
 
 
 def run(rep, tier, seed, deep=False):
@@ -305,7 +479,7 @@ def run(rep, tier, seed, deep=False):
                 "(exhaustive, mem+os) and in random histories on %s; fs.move/fs.copy functions on random backend pairs (same instance, same "
                 "backend, different backends); OSFS directories holding symlinks to an outside canary; distinct = distinct (backend, call, pre-tree)"
                 % (S.WRITABLE,))
-    rep.assumptions = ["two aliased views of one storage (nested SubFS/OSFS roots) are not explored yet",
+    rep.assumptions = ["aliased views explored: same object, twin OSFS on one directory, SubFS at depth 1 and 2 of one parent",
                        "mount points of a MountFS are fixtures (not removable)"]
     try:
         steps = S.collect(S.WRITABLE, n_hist, n_ops, rng, gen=gen_bulk)
@@ -322,7 +496,16 @@ def run(rep, tier, seed, deep=False):
             ka, kb = rng.choice(kinds), rng.choice(kinds)
             judge_cross(rep, cross_case(rng, ka, kb, same=(rng.random() < 0.25)))
         rep.programs += n_cross
+        for i in range(n_cross // 2):
+            c = aliased_case(rng, rng.choice(["mem", "os"]))
+            if c is None:
+                rep.count("aliased/steered-runaway")
+                continue
+            judge_aliased(rep, c)
+        aliased_runaway_regression(rep)
+        rep.programs += n_cross // 2
         symlink_canary(rep)
+        symlink_histories(rep, rng, 12 if quick else 300)
         for s in steps[:: max(1, len(steps) // 5)][:5]:
             rep.sample({"backend": s.kind, "pre": [e[:2] for e in s.pre][:6], "op": H.op_json(s.op), "impl": list(s.impl[:2])})
     finally:
